@@ -218,7 +218,7 @@ def run_case(case):
         b = {f.name: f.content for f in g2.response.file}
         diff = [n for n in sorted(set(a) | set(b)) if a.get(n) != b.get(n)][:5]
         viol.append({"clause": "unknown-option-changes-output", "detail": {"options": req2.parameter, "files": diff}, "mech": {}})
-    return {"verdict": "violated" if viol else "held", "violations": viol[:12], "evaluations": 2,
+    return {"verdict": "violated" if viol else "held", "violations": pipeline.diverse(viol, 40), "evaluations": 2,
             "nontrivial_sigs": [] if viol else [sig], "counters": counters,
             "sample": {"tags": tags, "opts": api.options, "noise": noise, "files": nnames,
                        "names": [f.name for f in g.response.file if f.name.endswith(".py")][:8]}}
